@@ -184,7 +184,7 @@ class SMMapSetMeta:
             f"#SAMPLESTART:{RAConst.msec_to_sec(self.sample_start)};",
             f"#SAMPLELENGTH:{RAConst.msec_to_sec(self.sample_length)};",
             f"#DISPLAYBPM:{self.display_bpm};",
-            f"#SELECTABLE:" + "YES;" if self.selectable else "NO;",
+            f"#SELECTABLE:" + ("YES;" if self.selectable else "NO;"),
             f"#BGCHANGES:{self.bg_changes};",
             f"#FGCHANGES:{self.fg_changes};",
         ]
